@@ -171,9 +171,33 @@ func collectGroundReads(t *Term, bound map[string]bool, out *[]groundRead, seen 
 }
 
 // baseArray strips stores: reads of store(a,i,v) are relevant to quantifiers over a.
+// exactRow: the matching key that also names the row (used to rank candidates: reads of syntactically the same row first).
+func exactRow(a *Term) string {
+	for a.Op == "app" && a.Name == "store" {
+		a = a.Args[0]
+	}
+	if a.Op == "app" && a.Name == "select" && len(a.Args) == 2 && (a.Args[0].Sort == SArr2 || a.Args[0].Sort == SAr2B) {
+		o := a.Args[0]
+		for o.Op == "app" && o.Name == "store" {
+			o = o.Args[0]
+		}
+		return o.String() + "@" + a.Args[1].String()
+	}
+	return a.String()
+}
+
 func baseArray(a *Term) *Term {
 	for a.Op == "app" && a.Name == "store" {
 		a = a.Args[0]
+	}
+	// a row of a two-level heap: rows named by different terms may be the same row (the ids may be provably equal),
+	// so the row id is not part of the matching key; instantiating on a read of another row is sound, only redundant
+	if a.Op == "app" && a.Name == "select" && len(a.Args) == 2 && (a.Args[0].Sort == SArr2 || a.Args[0].Sort == SAr2B) {
+		o := a.Args[0]
+		for o.Op == "app" && o.Name == "store" {
+			o = o.Args[0]
+		}
+		return &Term{Op: "app", Name: "row", Sort: a.Sort, Args: []*Term{o}}
 	}
 	// row id of a two-level heap: ignore the stores to (other) rows of the outer heap
 	if a.Op == "app" && a.Name == "select" && len(a.Args) == 2 && (a.Args[0].Sort == SArr2 || a.Args[0].Sort == SAr2B) {
@@ -460,9 +484,11 @@ func (c *qfCtx) candidates(q *Term) []*Term {
 		}
 	}
 	cands := map[string]*Term{}
+	rank := map[string]int{} // 0: read of the same row; 1: read of another row of the same heap
 	var order []string
 	for _, br := range brs {
 		bb := baseArray(br.arr).String()
+		ex := exactRow(br.arr)
 		for _, gr := range c.reads {
 			if gr.base != bb {
 				continue
@@ -472,13 +498,23 @@ func (c *qfCtx) candidates(q *Term) []*Term {
 				continue
 			}
 			key := t.String()
-			if _, ok := cands[key]; !ok {
+			rk := 1
+			if exactRow(gr.arr) == ex {
+				rk = 0
+			}
+			if old, ok := cands[key]; !ok {
 				cands[key] = t
+				rank[key] = rk
 				order = append(order, key)
+			} else if _ = old; rk < rank[key] {
+				rank[key] = rk
 			}
 		}
 	}
 	sort.Slice(order, func(i, j int) bool {
+		if rank[order[i]] != rank[order[j]] {
+			return rank[order[i]] < rank[order[j]]
+		}
 		if len(order[i]) != len(order[j]) {
 			return len(order[i]) < len(order[j])
 		}
